@@ -100,9 +100,11 @@ func removeDotSegments(p string) string {
 
 // URIKey is the normalised form used for comparison.
 type URIKey struct {
-	Strict string // §6.2.2 + §6.2.3 normal form, raw non-ASCII percent-encoded
-	Loose  string // additionally: features whose equivalence is debatable are erased
-	RawNonASCII bool
+	Strict       string // §6.2.2 + §6.2.3 normal form, raw non-ASCII percent-encoded
+	Loose        string // additionally: features whose equivalence is debatable are erased
+	RawNonASCII  bool
+	MalformedPct bool // the query has a '%' that does not start an escape
+	RawQuery     string
 }
 
 func wireTarget(u *url.URL) (path, query string, hasQ bool) {
@@ -147,7 +149,12 @@ func KeyOf(u *url.URL) URIKey {
 		np = "/"
 	}
 	nq := normPct(query, true)
-	k := URIKey{RawNonASCII: raw}
+	k := URIKey{RawNonASCII: raw, RawQuery: query}
+	for i := 0; i < len(query); i++ {
+		if query[i] == '%' && !(i+2 < len(query) && ishex(query[i+1]) && ishex(query[i+2])) {
+			k.MalformedPct = true
+		}
+	}
 	// host as an IPv6 literal keeps its brackets in the key so that
 	// "[::1]:8080" and "[::1:8080]" differ
 	hostKey := host
@@ -189,6 +196,10 @@ func CompareURI(a, b *url.URL) Class {
 	}
 	ka, kb := KeyOf(a), KeyOf(b)
 	if ka.Strict == kb.Strict {
+		if (ka.MalformedPct || kb.MalformedPct) && ka.RawQuery != kb.RawQuery {
+			// a stray '%' next to a real escape ("%%34" vs "%4"): RFC 3986 gives no reading
+			return Unknown
+		}
 		if ka.RawNonASCII != kb.RawNonASCII {
 			// raw non-ASCII vs its percent-encoded bytes
 			return Unknown
